@@ -93,6 +93,26 @@ def run(ctx):
             idx.append(k)
     cw = dict(zip(idx, T.eval_wn(ctx, items)))
     semantic, samples = [], []
+    structural = []
+    # structural: the mirror model of the weighted Bar-Hillel construction (Model/Compose.lean, `compose_eps` …) vs the real grammar
+    from harness.props.c10 import canon_fst
+
+    def accum_fst(d, R):
+        """the transducer Python actually builds: add_I / add_F / add_arc accumulate repeated keys with the semiring's +"""
+        c = canon_fst(d, R)
+        w = lambda v: v if isinstance(v, bool) else common.frac_str(v)  # noqa
+        return {"start": [[json.loads(k), w(v)] for k, v in c["start"].items()], "stop": [[json.loads(k), w(v)] for k, v in c["stop"].items()],
+                "arcs": [json.loads(k) + [w(v)] for k, v in c["arcs"].items()]}
+    cops = [{"op": "compose_cfg", "R": cases[k]["R"], "cfg": cases[k]["cfg"], "fst": accum_fst(cases[k]["fst"], cases[k]["R"])} for k in idx]
+    for k, r in zip(idx, ctx["lean"](cops)):
+        if "error" in r:
+            raise common.DriverError(r["error"])
+        got = impl_res[hashseeds[0]][cases[k]["id"]]["compose"]
+        ok, why = T.same_rules(r, got)
+        if ok and (r["S"] != got["S"] or sorted(map(common.symkey, r["V"])) != sorted(map(common.symkey, got["V"]))):
+            ok, why = False, "start symbol / vocabulary differ"
+        if not ok:
+            structural.append({"op": "cfg@fst", "what": why, "model_rules": len(r["rules"]), "impl_rules": len(got["rules"]), "cfg": cases[k]["cfg"], "fst": cases[k]["fst"]})
     evaluations = traces = 0
     nontrivial = set()
     shapes = {}
@@ -189,8 +209,8 @@ def run(ctx):
         "evaluations": evaluations, "distinct_nontrivial": len(nontrivial),
         "rule": "seeded finite-language grammars (strings ≤ 4, nullary/unary/duplicate rules) x transducers (ε on either tape, ε:ε arcs, cycles, dead states, several initial/final states) / acceptors / strings / "
                 "length bounds x all output strings ≤ 2 plus longer ones x semiring; non-trivial = distinct (grammar, transducer) with some related and some unrelated output",
-        "samples": samples, "traces": traces, "semantic": semantic, "structural": [],
-        "extra": {"shape_histogram": shapes, "hashseeds": hashseeds, "stats": stats, "cases": len(cases)},
+        "samples": samples, "traces": traces + len(cops) - len(structural), "semantic": semantic, "structural": structural,
+        "extra": {"shape_histogram": shapes, "hashseeds": hashseeds, "stats": stats, "cases": len(cases), "structural_compositions": len(cops)},
         "assumptions": ["grammars are finite-language so that Σ_x is an exact finite sum; transducers with ε:ε cycles use a deep IEEE truncation of TPN"],
     }
 
